@@ -434,6 +434,14 @@ func (eng *Engine) verifyFunc(fn *ssa.Function, con *Contract, mode string) *VC 
 			q := fn.Params[j]
 			ti, oki := refElem(p.Type())
 			tj, okj := refElem(q.Type())
+			_, pi := types.Unalias(p.Type()).Underlying().(*types.Pointer)
+			_, pj := types.Unalias(q.Type()).Underlying().(*types.Pointer)
+			if oki && okj && pi && pj && types.Identical(ti, tj) {
+				// two pointers to objects of the same type are equal or denote disjoint objects
+				a, b := fr.params[i], fr.params[j]
+				sz := sInt(int64(eng.lay.sizeOf(ti)))
+				vc.assert(sOr(sAnd(sEq(a[0], b[0]), sEq(a[1], b[1])), sNot(sEq(a[0], b[0])), app(">=", app("-", a[1], b[1]), sz), app(">=", app("-", b[1], a[1]), sz)))
+			}
 			if oki && okj && !types.Identical(ti, tj) {
 				vc.assert(sOr(sEq(fr.params[i][0], "0"), sNot(sEq(fr.params[i][0], fr.params[j][0]))))
 				vc.assumptions["reference parameters of different element types do not alias (Go type safety; interior overlap of differently typed parameters excluded)"] = true
